@@ -22,7 +22,8 @@ RULE = (
     "origin of a ring (start==0, end==length, gap==half the record included) x every assignment of the "
     "rule's profiles to the genes (bitscores 49.9/50/51 and a double hit for minscore profiles; an "
     "unrelated profile z on alternating genes); assignments are complete up to a per-layout cap and a "
-    "fixed multiplicative stride beyond it (thorough: larger cap + seeded random rules/worlds). "
+    "fixed multiplicative stride beyond it (thorough: larger caps, 4-gene worlds, CUTOFF 3, more three-operand "
+    "rules, + seeded random rules of depth <= 4 on random worlds). "
     "detect() is evaluated at every gene of the world. Non-trivial = the rule has at least one "
     "operator/function and some pair of genes lies within cutoff+-1 of each other or exactly touches; "
     "distinct = distinct (rule, layout, hit assignment)."
@@ -33,7 +34,7 @@ IDS = ["a", "b", "c"]
 SCORE = 50
 KB = 1            # CUTOFF 1 -> 1000 bases
 N_SHARDS = 48
-RANDOM_RULES_PER_SHARD = 4000   # thorough: 16 shards x 4000 random rules x 40 worlds
+RANDOM_RULES_PER_SHARD = 2500   # thorough: 16 shards x 2500 random rules x 40 worlds
 
 
 # ------------------------------------------------------------------------------------------------
@@ -209,8 +210,8 @@ def rule_texts(tier: str) -> List[str]:
     texts: List[str] = []
     pools = [single_atoms(), binary_rules(), ternary_rules()]
     if tier == "thorough":
-        more = [_id("a"), _id("b"), _id("b", True), _id("c"), _score("a"), _score("c", True),
-                _min(1, ["b", "c"]), _min(2, ["a", "b"], True), _min(3, ["a", "b"]),
+        more = [_id("a"), _id("b", True), _id("c"), _score("a"), _score("c", True),
+                _min(1, ["b", "c"]), _min(2, ["a", "b"], True),
                 _cds(["or", [_id("a"), _id("c")]]), _cds(["and", [_id("a"), _id("c", True)]], True),
                 _cds(["and", [_id("a"), _grp(["or", [_id("b"), _id("c")]])]])]
         pools.append(ternary_rules(more))
@@ -466,8 +467,8 @@ def boundary_layout(genes: Sequence[Any], ring: int, cutoff: int) -> bool:
 
 FAMILIES = {
     # family: (layout function, genes, caps per rule class (single, binary, ternary) quick / thorough)
-    "w2": (layouts2, 2, (512, 16, 6), (4096, 256, 32)),
-    "w3": (layouts3, 3, (64, 8, 4), (2048, 96, 16)),
+    "w2": (layouts2, 2, (512, 16, 6), (4096, 256, 24)),
+    "w3": (layouts3, 3, (64, 8, 4), (2048, 96, 12)),
     "w4": (layouts4, 4, (0, 0, 0), (512, 32, 8)),
     "sp": (layouts_special, 2, (64, 8, 8), (512, 64, 64)),
 }
@@ -530,6 +531,18 @@ def input_class(cond: Any, genes: Sequence[Any], hits: Sequence[Any], near: Sequ
     return ""
 
 
+def _prepare_layouts(cutoff: int) -> Dict[str, List[Tuple[Dict[str, Any], Dict[str, Any], List[Any], bool]]]:
+    cache = {}
+    for fam, (layout_fn, _, _, _) in FAMILIES.items():
+        prepared = []
+        for layout in layout_fn(cutoff):
+            features = build_features(layout["genes"])
+            near = ref.near_sets(layout["genes"], cutoff, layout["ring"])
+            prepared.append((layout, features, near, boundary_layout(layout["genes"], layout["ring"], cutoff)))
+        cache[fam] = prepared
+    return cache
+
+
 def run_shard(shard: Dict[str, Any], run: Any) -> None:
     if shard["kind"] == "random":
         _run_random(shard, run)
@@ -538,15 +551,8 @@ def run_shard(shard: Dict[str, Any], run: Any) -> None:
         _self_check(run)
     tier = run.tier
     texts = rule_texts(tier)
-    cutoff = KB * 1000
-    layout_cache: Dict[str, List[Tuple[Dict[str, Any], Dict[str, Any], List[Any], bool]]] = {}
-    for fam, (layout_fn, _, _, _) in FAMILIES.items():
-        prepared = []
-        for layout in layout_fn(cutoff):
-            features = build_features(layout["genes"])
-            near = ref.near_sets(layout["genes"], cutoff, layout["ring"])
-            prepared.append((layout, features, near, boundary_layout(layout["genes"], layout["ring"], cutoff)))
-        layout_cache[fam] = prepared
+    # cutoff in kilobases: 1 everywhere; thorough repeats single and binary rules with CUTOFF 3
+    layout_caches = {kb: _prepare_layouts(kb * 1000) for kb in ((1,) if tier == "quick" else (1, 3))}
     for position in range(shard["index"], len(texts), shard["of"]):
         text = texts[position]
         try:
@@ -554,37 +560,40 @@ def run_shard(shard: Dict[str, Any], run: Any) -> None:
         except (ref.IllFormed, ref.Ambiguous) as err:
             run.error(f"generator produced a text the reference reader refuses: {text!r}: {err}")
             continue
-        try:
-            rule = parse_rule(text)
-        except Exception as err:  # pylint: disable=broad-except
-            run.check("no-unexpected-exception", False, {"fam": "parse", "cond": text},
-                      detail=f"Parser refused a well-formed rule: {type(err).__name__}: {err}")
-            continue
         klass = rule_class(position)
         operator = ref.has_operator(cond)
         scored_in_cds = ref.score_profiles_of(cond, inside_cds_only=True)
-        for fam, (_, n_genes, caps_quick, caps_thorough) in FAMILIES.items():
-            cap = (caps_quick if tier == "quick" else caps_thorough)[klass]
-            if fam == "sp" and klass and position % 8:
+        for cutoff_kb, layout_cache in layout_caches.items():
+            if cutoff_kb != 1 and klass == 2:
                 continue
-            if not cap:
+            try:
+                rule = parse_rule(text, cutoff_kb)
+            except Exception as err:  # pylint: disable=broad-except
+                run.check("no-unexpected-exception", False, {"fam": "parse", "cond": text, "cutoff_kb": cutoff_kb},
+                          detail=f"Parser refused a well-formed rule: {type(err).__name__}: {err}")
                 continue
-            slots, size = hit_universe(cond, n_genes)
-            for layout_index, (layout, features, near, boundary) in enumerate(layout_cache[fam]):
-                for index in chosen_indices(size, cap, layout_index + position):
-                    hits = assignment(slots, n_genes, index, index + layout_index)
-                    case = {"fam": fam, "cond": text, "cutoff_kb": KB, "genes": layout["genes"],
-                            "ring": layout["ring"], "hits": hits}
-                    verdicts = evaluate(rule, cond, features, layout["genes"], layout["ring"], hits, near)
-                    known = input_class(cond, layout["genes"], hits, near, scored_in_cds)
-                    key = f"{text}|{fam}{layout_index}|{index}"
-                    for clause, (ok, detail) in verdicts.items():
-                        if known and clause in _SEM_CLAUSES:
-                            clause = f"{clause} @{known}"
-                        run.check(clause, ok, case, nontrivial=operator and boundary, detail=detail, key=key)
-                    run.count((n_genes - 1) * len(verdicts))
-            if run.out_of_time():
-                return
+            for fam, (_, n_genes, caps_quick, caps_thorough) in FAMILIES.items():
+                cap = (caps_quick if tier == "quick" else caps_thorough)[klass]
+                if fam == "sp" and klass and position % 8:
+                    continue
+                if not cap:
+                    continue
+                slots, size = hit_universe(cond, n_genes)
+                for layout_index, (layout, features, near, boundary) in enumerate(layout_cache[fam]):
+                    for index in chosen_indices(size, cap, layout_index + position):
+                        hits = assignment(slots, n_genes, index, index + layout_index)
+                        case = {"fam": fam, "cond": text, "cutoff_kb": cutoff_kb, "genes": layout["genes"],
+                                "ring": layout["ring"], "hits": hits}
+                        verdicts = evaluate(rule, cond, features, layout["genes"], layout["ring"], hits, near)
+                        known = input_class(cond, layout["genes"], hits, near, scored_in_cds)
+                        key = f"{text}|{cutoff_kb}{fam}{layout_index}|{index}"
+                        for clause, (ok, detail) in verdicts.items():
+                            if known and clause in _SEM_CLAUSES:
+                                clause = f"{clause} @{known}"
+                            run.check(clause, ok, case, nontrivial=operator and boundary, detail=detail, key=key)
+                        run.count((n_genes - 1) * len(verdicts))
+                if run.out_of_time():
+                    return
 
 
 def _random_unit(rng: Any, depth: int, in_cds: bool) -> Any:
